@@ -42,6 +42,16 @@ let run_op2 (taken : string -> bool) (handle : string -> positive) (s : state) (
   | ["deepcopy"; d; d2; base] -> go (XDeepCopy (pos_of_name d, pos_of_name d2, pos_of_int (int_of_string base + 1)))
   | ["deepcopyto"; d; d2; base] -> go (XDeepCopyTo (pos_of_name d, pos_of_name d2, pos_of_int (int_of_string base + 1)))
   | ["reassign"; d] -> go (XReassign (pos_of_name d))
+  | "tparse" :: rest ->
+      let str = (match rest with h :: _ -> from_hex h | [] -> "") in
+      (match drv_time_parse (bytes_of_string str) with
+       | Some (Ns n) -> Some (s, "ok ns:" ^ string_of_n n)
+       | Some (Frac (a, b)) -> Some (s, "ok fr:" ^ string_of_n a ^ "/" ^ string_of_n b)
+       | None -> Some (s, "exn Other"))
+  | ["tformat"; tm] ->
+      (match parse_tm tm with
+       | ZNs n -> Some (s, "ok " ^ to_hex (string_of_bytes (drv_time_format (Ns (n_of_int (int_of_z n))))))
+       | ZFr (a, b) -> Some (s, "ok " ^ to_hex (string_of_bytes (drv_time_format (Frac (n_of_int (int_of_z a), n_of_int (int_of_z b)))))))
   | ["trace"; p] -> go (XTrace (handle p))
   | ["fixdur"; d; len] -> go (XFixDur (pos_of_name d, parse_otm len))
   | "simple" :: d :: base :: rest ->
